@@ -1797,3 +1797,7 @@ mod tests {
         assert!(words(&["ORDER", "BY"]).parse("ORDERBY").is_err());
     }
 }
+
+#[cfg(kani)]
+#[path = "/verif/harness/anda_kip/parser_common.rs"]
+mod verif_kani;
